@@ -354,6 +354,40 @@ def gen_selectors(r, spec, n):
     return out
 
 
+CAPTURED = []
+
+
+def capture_builders(thunk):
+    """run `thunk` (an API build) while recording every `_ProtoBuilder` it constructs: the direct probe below then calls
+    `_maybe_get_lro` on the REAL second-pass builder of the service's file, with whatever instance state the current code
+    gives it (a stand-in for `self` breaks as soon as a refactoring adds an attribute or a helper)"""
+    from gapic.schema import api as api_mod
+    del CAPTURED[:]
+    cls = getattr(api_mod, "_ProtoBuilder", None)
+    if cls is None:
+        return thunk()
+    orig = cls.__init__
+
+    def init(self, *a, **kw):
+        orig(self, *a, **kw)
+        CAPTURED.append((self, kw.get("load_services", True)))
+    cls.__init__ = init
+    try:
+        return thunk()
+    finally:
+        cls.__init__ = orig
+
+
+def real_builder(svc):
+    for b, with_services in reversed(CAPTURED):
+        try:
+            if with_services and svc.name in {s.name for s in b.proto_services.values()}:
+                return b
+        except Exception:
+            pass
+    return None
+
+
 def t2_direct(ctx, r, spec, api, svc, mfiles, svc_idx):
     """the real `_ProtoBuilder._maybe_get_lro` (unbound, on a stand-in for `self` that carries the
     second-pass `api_messages`) vs the model, on many selector pairs incl. the excluded points"""
@@ -364,7 +398,8 @@ def t2_direct(ctx, r, spec, api, svc, mfiles, svc_idx):
     # `api_messages` is the second-pass mapping
     msgs = collections.ChainMap({}, *[p.all_messages for p in api.all_protos.values()])
     stub_cls = type("_ProbeBuilder", (api_mod._ProtoBuilder,), {"api_messages": property(lambda self: msgs)})
-    stub = object.__new__(stub_cls)
+    stub = real_builder(svc) or object.__new__(stub_cls)
+    ctx.count("t2_direct_self", "real second-pass builder" if not isinstance(stub, stub_cls) else "stand-in")
     sels = gen_selectors(r, spec, ctx.n(24, 60))
     cases, ops = [], []
     for a, b in zip(sels[::2], sels[1::2]):
@@ -381,6 +416,10 @@ def t2_direct(ctx, r, spec, api, svc, mfiles, svc_idx):
             impl = {"error": type(e).__name__}
             if isinstance(e, KeyError):
                 impl["key"] = e.args[0]
+        except AttributeError as e:
+            # the probe's `self` lacks something the current code expects: the direct probe cannot run on this tree
+            ctx.count("t2_direct_self", f"probe unavailable: {e}"[:80])
+            return
         cases.append((a, b, out, annotated, impl))
         ops.append({"op": "c08.lro", "files": mfiles, "file": svc_idx, "output": out, "opinfo": [a, b] if annotated else None})
     for (a, b, out, annotated, impl), mo in zip(cases, ask(ctx, ops)):
@@ -463,7 +502,7 @@ def _run_spec(ctx, r, spec, label, files, req, transports):
         return
     if model_err is not None:
         ctx.disagree("T3:c08.generation-outcome", f"model {model_err} vs impl generates", {"spec": spec})
-    api, _ = genrun.build_api(req)
+    api, _ = capture_builders(lambda: genrun.build_api(req))
     svc = api.services[f"{spkg(spec)}.Library"]
     loc = rpc.py_locations(api, svc)
     codec = rpc.Codec(files)
